@@ -86,8 +86,7 @@ CLAIMS.update({
         'subdivision; offset point at distance |d| along the normal; cusp_sign = 1 + curvature * d). The property (end points, continuity, two-sided Hausdorff distance <= 2 accuracy for '
         'both fitters on smooth G1 chains, offset distance | dist - |d| | <= 2 accuracy for |d| kappa_max <= 0.8, simplify keeps sub-paths, closedness, end points and corners and stays '
         'within 2 accuracy) is decided on the implementation by a distance oracle with exact nearest-point refinement; moment_integrals also against exact rational integrals and the exact model.',
-   note='NOT proved: every accuracy claim - the fitter accepts candidates on an approximate error estimate (20 ray casts); fit_to_bezpath_rec / simplify_bezpath control flow is not '
-        'modelled (implementation-only oracle). One defect repaired (simplify smoothed over reversals of direction).',
+   note='NOT proved: every accuracy claim - the fitter accepts candidates on an approximate error estimate (20 ray casts); the control skeleton of simplify_bezpath IS modelled (Kurbo/Simplify.lean, fitter abstract; skeleton correspondence with the crate) and proved (Proofs/C18S.lean: sub-path structure, closedness, start/end points, corners are vertices); fit_to_bezpath_rec / fit_to_cubic are not modelled. One defect repaired (simplify smoothed over reversals of direction).',
    ref='6 / C18'),
  'C01': dict(
    text='Proved about the model of winding (Kurbo/Curve.lean), see the header of lean/Proofs/C01.lean for the exact list: the line branch of winding_inner (x-extent early outs included) is the half-open crossing indicator of the leftward ray for EVERY segment and point; on polyline paths pathWinding is the sum of these indicators and, over R, for every list of closed polyline sub-paths (self-intersections, repeated vertices, rows through vertices included) and every point off the path it EQUALS the angle-sum (topological) winding number; reversal negates, inserting a vertex / splitting a line leaves it unchanged, additivity over sub-paths, contains = (winding != 0); for curved segments: winding = sum of winding_inner over the pieces between extrema, and on ONE y-injective piece the quad/cubic branch counts the ray crossing with the half-open rule given the solver specification of C15. The implementation (all path kinds, curved, self-intersecting, multi-contour, rows through vertices/extrema) is decided against an exact rational winding oracle (Sturm isolation of ray crossings) and compared with the exact model; reversal/split/affine metamorphic checks.',
@@ -96,7 +95,7 @@ CLAIMS.update({
  'C03': dict(
    text='Proved: the three Gauss-Legendre tables of the model (8/16/24 points, regenerated from common.rs on every run and re-proved equal: GenEquivGL) are symmetric, '
         'weights sum to 2 and integrate every monomial up to degree 2n-1 to within 1e-15 (exact rational arithmetic on the decimal literals, decide +kernel); '
-        'Line/quad closed forms, arclen additivity identities and subsegment/inv_arclen algebra on the model. Implementation decided against exact arc lengths '
+        'the quadratic closed form of the model IS the arc length integral over R in its branch (quad_arclen_closed_form, no hypothesis beyond the branch conditions), the kink branch error is the dropped logarithmic term (bounded, attained), the nearly-straight branch on straight segments. Implementation decided against exact arc lengths '
         '(closed form for lines/quads in high precision, 1e-12 adaptive quadrature with a certified bound for cubics), inverse arc length round trip, '
         'perimeter additivity; correspondence with the Float model.',
    note='The error ESTIMATE heuristics of arclen_rec are not proved sufficient (analysis over all cubics is out of reach): decided by oracle comparison. '
@@ -125,8 +124,7 @@ CLAIMS.update({
  'C13': dict(
    text='Dash iterator modelled state for state (NeedInput/ToStash/Working/FromStash, stash, close-path handling, phase reset) and compared element for element with '
         'the crate in Float arithmetic; oracle: total dash length = pattern coverage of each sub-path arclen, every dash lies on the source, phase resets per sub-path, '
-        'closed sub-paths join first and last dash. Kernel definitions used (subsegment, eval) regenerated and re-proved (GenEquiv). Model theorems: dash_impl panics '
-        'iff the pattern is empty; further iterator invariants are being proved.',
+        'closed sub-paths join first and last dash. Kernel definitions used (subsegment, eval) regenerated and re-proved (GenEquiv). Model theorems (Proofs/C13.lean, C13B.lean): never panics on a non-empty pattern, phase of the offset, vertices invisible, conservation of length and the first-dash-last / join behaviour end to end for one open and for one or two closed polyline sub-paths.',
    note='Order of emitted dashes within a closed sub-path is by design (stash first). inv_arclen is numerical: dash end points compared to 1e-6 of the sub-path length.',
    ref='6 / C13'),
  'C14': dict(
@@ -142,7 +140,7 @@ CLAIMS.update({
         'index invariants, no panic on any byte string, totality with irrelevant fuel, exact error kinds, the number grammar (getNumber_spec for every valid token, '
         'malformed shapes rejected), one step lemma per command letter incl. relative forms, implicit repetition, smooth-curve reflection. Implementation oracle: '
         'write/parse round trip, relative = absolute, implicit = explicit.',
-   note='Decimal -> f64 conversion (parse::<f64>) and arc geometry are outside the theorems (arc flag/number lexing is inside). Full parse-render induction over command lists is not proved; step lemmas + composed instance.',
+   note='Decimal -> f64 conversion (parse::<f64>) and arc geometry are outside the theorems (arc flag/number lexing is inside). parse_render IS proved by induction over arbitrary command lists (Proofs/C16B.lean: all nine command kinds, relative/absolute, implicit repetition, every valid number spelling); arcs are not in the abstract command type; the writer is covered as a FORMAT only.',
    ref='6 / C16'),
  'C17': dict(
    text='Proved (header of lean/Proofs/C17.lean): to_quads has exactly toQuadsN >= 1 pieces, piece i covers [i/n,(i+1)/n], consecutive pieces share end points which lie on the cubic, first/last = cubic end points (any Scalar, also Float); the error identity quad_i(s) - cubic(t) = -D (t1-t0)^3 s(s-1/2)(s-1), the optimal constant 1/432, hence every piece within a of the cubic when |D|^2 <= 432 n^6 a^2, and over R (powf = rpow, as usize = floor) the computed n satisfies that inequality: unconditional accuracy; fit_inside is sound and fuel-monotone; split_into_n all branches; try_approx_quadratic/approx_spline(_n)/cubics_to_quadratic_splines end points, control-point counts, common order <= 101 and accuracy; QuadSpline::to_quads implied points and continuity. Implementation decided against exact deviation oracles and model correspondence.',
